@@ -134,7 +134,7 @@ def reach(plist, vseed):
         os.environ["VERIF_SCALE"] = os.environ.get("VERIF_REACH_SCALE", "0.25")
         rc = runner.check(prop, "quick", spec, vseed, min(16, os.cpu_count() or 1), "selftest-reach",
                           log=lambda *_a: None)
-        with open(os.path.join(runner.VERIF_DIR, "evidence", prop + ".json")) as fh:
+        with open(os.path.join(os.environ.get("VERIF_EVIDENCE_DIR") or os.path.join(runner.VERIF_DIR, "evidence"), prop + ".json")) as fh:
             cov = json.load(fh)["coverage"]
         seen = dict(cov["faults_fired"])
         seen.update(cov["probes"])
